@@ -39,6 +39,15 @@ class Baton:
         self.p_op = sched.get("p_op", 0.5)
         self.rng = random.Random(sched.get("sched_seed", 0))
         self.points = set(sched.get("points", []))
+        # "atomic" policy: site-uniform atomicity tests. A site whose crc32 falls in the seeded residue class is
+        # pre-empted at its k-th execution; another client then runs until it completes an operation and the
+        # baton returns. Covers "operation B runs entirely inside a one-line window of operation A" for every
+        # distinct line, not in proportion to how often the line executes.
+        self.atom_mod = sched.get("mod", 40)
+        self.atom_res = sched.get("res", 0)
+        self.atom_k = sched.get("k", 1)
+        self.site_hits = {}
+        self.return_to = None
         self.literal = {}
         self.first = sched.get("first")
         if self.mode == "literal":
@@ -130,6 +139,27 @@ class Baton:
                     for c, o in enumerate(self.op_in_flight) if c != cid)
                 pr = self.p_op if is_op else ((self.p if weight > 1.0 else self.p / 4) if hot else 0.004)
                 fire = self.rng.random() < pr
+            elif pol == "atomic":
+                if self.return_to is not None and is_op and self.return_to[0] != cid:
+                    # the visiting client completed an operation: hand the baton back
+                    back = self.return_to[0]
+                    self.return_to = None
+                    if not self.done[back]:
+                        self._switch(cid, back, site)
+                        self.sems[cid].acquire()
+                        return
+                elif self.return_to is None and not is_op:
+                    import zlib
+                    if zlib.crc32(site.encode()) % self.atom_mod == self.atom_res:
+                        key = (cid, site)
+                        n = self.site_hits.get(key, 0) + 1
+                        self.site_hits[key] = n
+                        if n == self.atom_k:
+                            others = self._runnable(exclude=cid)
+                            if others:
+                                to = self.rng.choice(others)
+                                self.return_to = (cid,)
+                                self._probe("atomicity_tests")
             elif pol == "sparse":
                 fire = self.E in self.points
             elif pol == "opgran":
@@ -153,7 +183,12 @@ class Baton:
             to = self.literal.get(("f", cid))
             if to is None or to not in run:
                 to = run[0]
+        elif self.return_to is not None and self.return_to[0] in run:
+            to = self.return_to[0]
+            self.return_to = None
         else:
+            if self.return_to is not None and self.return_to[0] == cid:
+                self.return_to = None
             to = self.rng.choice(run)
         self.log.append(["f", cid, to])
         self.current = to
